@@ -15,6 +15,7 @@
 package c09
 
 import (
+	"fmt"
 	"math"
 	"math/rand"
 	"sort"
@@ -48,8 +49,52 @@ func pos64(a int64) int64 {
 	return a
 }
 
-func pointID(p *object.Point, h, v int64) (string, error) {
-	ids, err := shape.GetExtendedSpatialIdsOnPoints([]*object.Point{p}, h, v)
+// caller: the program that calls the library. A plain entry uses a fresh, polite caller. A CallHistory case uses ONE caller for all its
+// steps: it keeps its point objects, its ID buffer and its point-list slice across calls (same pointers, same backing arrays, new contents),
+// and in "scribble" mode it overwrites its own inputs and the slices the library returned right after each call — all legitimate for a
+// caller, and invisible to a library that keeps no state and aliases nothing.
+type caller struct {
+	scribble bool
+	slots    [2]*object.Point // the caller's own point objects: [0] is moved in place for every question, [1] is a decoy
+	buf      []string        // the caller's ID list, refilled in place
+	pts      []*object.Point // the caller's point list, refilled in place
+}
+
+func newCaller(scribble bool) *caller {
+	c := &caller{scribble: scribble, buf: make([]string, 0, 8192), pts: make([]*object.Point, 0, 4)}
+	for i := range c.slots {
+		c.slots[i] = &object.Point{}
+	}
+	return c
+}
+
+// pointOf: the stored triple written INTO one of the caller's existing objects (RawPoint-style, no re-truncation of the latitude)
+func (c *caller) pointOf(v w.Val) *object.Point {
+	t := w.AsList(v)
+	fresh := RawPoint(w.AsFlt(t[0]), w.AsFlt(t[1]), w.AsFlt(t[2])) // also checks the layout of object.Point
+	p := c.slots[0] // always the same object: a library that remembers the pointer sees it again with other coordinates
+	*p = *fresh
+	return p
+}
+
+const scribbleID = "35/1/2/35/-4" // a valid ID unrelated to any generated one, at the finest zooms (a library that reads it back can only zoom it out: cheap)
+
+func (c *caller) lookup(p *object.Point, h, v int64) ([]string, error) {
+	c.pts = append(c.pts[:0], p)
+	in := c.pts
+	out, err := shape.GetExtendedSpatialIdsOnPoints(in, h, v)
+	res := append([]string(nil), out...)
+	if c.scribble {
+		for i := range out {
+			out[i] = scribbleID
+		}
+		in[0] = c.slots[1]
+	}
+	return res, err
+}
+
+func (c *caller) pointID(p *object.Point, h, v int64) (string, error) {
+	ids, err := c.lookup(p, h, v)
 	if err != nil {
 		return "", err
 	}
@@ -59,38 +104,81 @@ func pointID(p *object.Point, h, v int64) (string, error) {
 	return ids[0], nil
 }
 
+// afterPoint: in scribble mode the caller moves its own object once it has finished asking about it
+func (c *caller) afterPoint(p *object.Point) {
+	if c.scribble {
+		*p = *RawPoint(12.5, -33.25, 77)
+	}
+}
+
+func (c *caller) fill(ids []string) []string {
+	c.buf = append(c.buf[:0], ids...)
+	return c.buf
+}
+
+func (c *caller) finish(in, out []string) {
+	if c.scribble {
+		for i := range out {
+			out[i] = scribbleID
+		}
+		for i := range in {
+			in[i] = scribbleID
+		}
+	}
+}
+
+func (c *caller) change(ids []string, H, V int64) ([]string, error) {
+	in := c.fill(ids)
+	out, err := integrate.ChangeExtendedSpatialIdsZoom(in, H, V)
+	var res []string
+	if out != nil {
+		res = append([]string{}, out...)
+	}
+	c.finish(in, out)
+	return res, err
+}
+
+func (c *caller) merge(ids []string, H, V int64) ([]string, error) {
+	in := c.fill(ids)
+	out, err := integrate.MergeExtendedSpatialIds(in, H, V)
+	var res []string
+	if out != nil {
+		res = append([]string{}, out...)
+	}
+	c.finish(in, out)
+	return res, err
+}
+
 type lenErr struct{}
 
 func (lenErr) Error() string { return "one point did not give one ID" }
 
 var errLen = lenErr{}
 
-func pointOf(v w.Val) *object.Point {
-	t := w.AsList(v)
-	return RawPoint(w.AsFlt(t[0]), w.AsFlt(t[1]), w.AsFlt(t[2]))
+func (c *caller) nesting(a []w.Val) w.Val {
+	h1, v1, h2, v2 := w.AsInt(a[1]), w.AsInt(a[2]), w.AsInt(a[3]), w.AsInt(a[4])
+	all := zoomOK(h1) && zoomOK(v1) && zoomOK(h2) && zoomOK(v2)
+	if all && 2*pos64(h2-h1)+pos64(v2-v1) > capBits {
+		return w.S(skipMarker)
+	}
+	p := c.pointOf(a[0])
+	id1, e1 := c.pointID(p, h1, v1)
+	id2, e2 := c.pointID(p, h2, v2)
+	c.afterPoint(p)
+	if e1 != nil || e2 != nil {
+		return w.Err{V: w.L(w.S(id1), w.S(id2))}
+	}
+	chg, e3 := c.change([]string{id1}, h2, v2)
+	b, e4 := detector.CheckExtendedSpatialIdsOverlap(id1, id2)
+	res := w.L(w.S(id1), w.S(id2), strs(modelOrder(chg)), w.B(b))
+	if e3 != nil || e4 != nil {
+		return w.Err{V: res}
+	}
+	return res
 }
 
 func fnNesting() *run.Fn {
-	return &run.Fn{Name: "PointNesting", Timeout: 5e9, Invoke: func(a []w.Val) w.Val {
-		p := pointOf(a[0])
-		h1, v1, h2, v2 := w.AsInt(a[1]), w.AsInt(a[2]), w.AsInt(a[3]), w.AsInt(a[4])
-		all := zoomOK(h1) && zoomOK(v1) && zoomOK(h2) && zoomOK(v2)
-		if all && 2*pos64(h2-h1)+pos64(v2-v1) > capBits {
-			return w.S(skipMarker)
-		}
-		id1, e1 := pointID(p, h1, v1)
-		id2, e2 := pointID(p, h2, v2)
-		if e1 != nil || e2 != nil {
-			return w.Err{V: w.L(w.S(id1), w.S(id2))}
-		}
-		chg, e3 := integrate.ChangeExtendedSpatialIdsZoom([]string{id1}, h2, v2)
-		b, e4 := detector.CheckExtendedSpatialIdsOverlap(id1, id2)
-		res := w.L(w.S(id1), w.S(id2), strs(modelOrder(chg)), w.B(b))
-		if e3 != nil || e4 != nil {
-			return w.Err{V: res}
-		}
-		return res
-	}}
+	return &run.Fn{Name: "PointNesting", Timeout: 5e9, Invoke: func(a []w.Val) w.Val { return newCaller(false).nesting(a) }}
 }
 
 // modelOrder sorts a zoom-change result (Go map order after common.Unique) into the order of the model's loops: y, then x, then f.
@@ -139,67 +227,73 @@ func strs(l []string) w.Val {
 	return w.Strs(l)
 }
 
+func (c *caller) ladder(a []w.Val) w.Val {
+	zs := w.AsList(a[1])
+	type zz struct{ h, v int64 }
+	zooms := make([]zz, len(zs))
+	ids := make([]string, len(zs))
+	for k, z := range zs {
+		l := w.AsList(z)
+		zooms[k] = zz{w.AsInt(l[0]), w.AsInt(l[1])}
+	}
+	p := c.pointOf(a[0])
+	for k, z := range zooms {
+		id, err := c.pointID(p, z.h, z.v)
+		if err != nil {
+			c.afterPoint(p)
+			return w.Err{V: strs(ids[:k])}
+		}
+		ids[k] = id
+	}
+	c.afterPoint(p)
+	bools := w.List{}
+	var firstErr error
+	for _, pr := range w.AsList(a[2]) {
+		l := w.AsList(pr)
+		ia, ib := w.AsInt(l[0]), w.AsInt(l[1])
+		if ia < 0 || ib < 0 || ia >= int64(len(ids)) || ib >= int64(len(ids)) {
+			bools = append(bools, w.Nil{}) // not a pair of rungs (only a shrinker can produce it): refused by the dispatch entry
+			continue
+		}
+		b, err := detector.CheckExtendedSpatialIdsOverlap(ids[ia], ids[ib])
+		if err != nil && firstErr == nil {
+			firstErr = err
+		}
+		bools = append(bools, w.B(b))
+	}
+	return w.WithErr(w.L(strs(ids), bools), firstErr)
+}
+
 func fnLadder() *run.Fn {
-	return &run.Fn{Name: "PointLadder", Timeout: 5e9, Invoke: func(a []w.Val) w.Val {
-		p := pointOf(a[0])
-		zs := w.AsList(a[1])
-		type zz struct{ h, v int64 }
-		zooms := make([]zz, len(zs))
-		ids := make([]string, len(zs))
-		for k, z := range zs {
-			l := w.AsList(z)
-			zooms[k] = zz{w.AsInt(l[0]), w.AsInt(l[1])}
+	return &run.Fn{Name: "PointLadder", Timeout: 5e9, Invoke: func(a []w.Val) w.Val { return newCaller(false).ladder(a) }}
+}
+
+func (c *caller) inOut(a []w.Val) w.Val {
+	id, H, V := w.AsStr(a[0]), w.AsInt(a[1]), w.AsInt(a[2])
+	e, perr := object.NewExtendedSpatialID(id)
+	var h, v int64
+	if perr == nil {
+		h, v = e.HZoom(), e.VZoom()
+		if !zoomOK(h) || !zoomOK(v) {
+			return w.S(skipMarker)
 		}
-		for k, z := range zooms {
-			id, err := pointID(p, z.h, z.v)
-			if err != nil {
-				return w.Err{V: strs(ids[:k])}
-			}
-			ids[k] = id
+		if zoomOK(H) && zoomOK(V) && 2*abs64(H-h)+abs64(V-v) > capBits {
+			return w.S(skipMarker)
 		}
-		bools := w.List{}
-		var firstErr error
-		for _, pr := range w.AsList(a[2]) {
-			l := w.AsList(pr)
-			ia, ib := w.AsInt(l[0]), w.AsInt(l[1])
-			if ia < 0 || ib < 0 || ia >= int64(len(ids)) || ib >= int64(len(ids)) {
-				bools = append(bools, w.Nil{}) // not a pair of rungs (only a shrinker can produce it): refused by the dispatch entry
-				continue
-			}
-			b, err := detector.CheckExtendedSpatialIdsOverlap(ids[ia], ids[ib])
-			if err != nil && firstErr == nil {
-				firstErr = err
-			}
-			bools = append(bools, w.B(b))
-		}
-		return w.WithErr(w.L(strs(ids), bools), firstErr)
-	}}
+	}
+	mid, e1 := c.change([]string{id}, H, V)
+	if e1 != nil {
+		return w.Err{V: w.Nil{}}
+	}
+	if perr != nil { // object.NewExtendedSpatialID refused the ID but the zoom change accepted it: reported as "no error"
+		return w.L(strs(modelOrder(mid)), w.List{})
+	}
+	back, e2 := c.change(mid, h, v)
+	return w.WithErr(w.L(strs(modelOrder(mid)), strs(back)), e2)
 }
 
 func fnInOut() *run.Fn {
-	return &run.Fn{Name: "ZoomInOut", Timeout: 5e9, Invoke: func(a []w.Val) w.Val {
-		id, H, V := w.AsStr(a[0]), w.AsInt(a[1]), w.AsInt(a[2])
-		e, perr := object.NewExtendedSpatialID(id)
-		var h, v int64
-		if perr == nil {
-			h, v = e.HZoom(), e.VZoom()
-			if !zoomOK(h) || !zoomOK(v) {
-				return w.S(skipMarker)
-			}
-			if zoomOK(H) && zoomOK(V) && 2*abs64(H-h)+abs64(V-v) > capBits {
-				return w.S(skipMarker)
-			}
-		}
-		mid, e1 := integrate.ChangeExtendedSpatialIdsZoom([]string{id}, H, V)
-		if e1 != nil {
-			return w.Err{V: w.Nil{}}
-		}
-		if perr != nil { // object.NewExtendedSpatialID refused the ID but the zoom change accepted it: reported as "no error"
-			return w.L(strs(modelOrder(mid)), w.List{})
-		}
-		back, e2 := integrate.ChangeExtendedSpatialIdsZoom(mid, h, v)
-		return w.WithErr(w.L(strs(modelOrder(mid)), strs(back)), e2)
-	}}
+	return &run.Fn{Name: "ZoomInOut", Timeout: 5e9, Invoke: func(a []w.Val) w.Val { return newCaller(false).inOut(a) }}
 }
 
 // shuffleDup: the list in an order and with repetitions chosen by the seed (mode = seed mod 4: as is / shuffled / shuffled with
@@ -228,26 +322,116 @@ func shuffleDup(l []string, seed int64) []string {
 	return out
 }
 
+func (c *caller) mergeDesc(a []w.Val) w.Val {
+	id, dh, dv, seed := w.AsStr(a[0]), w.AsInt(a[1]), w.AsInt(a[2]), w.AsInt(a[3])
+	e, perr := object.NewExtendedSpatialID(id)
+	if perr != nil {
+		_, e1 := c.merge([]string{id}, 0, 0)
+		return w.WithErr(w.L(w.List{}, w.List{}), e1)
+	}
+	h, v := e.HZoom(), e.VZoom()
+	if !zoomOK(h) || !zoomOK(v) || dh < 0 || dh > 3 || dv < 0 || dv > 4 || h+dh > 35 || v+dv > 35 {
+		return w.S(skipMarker)
+	}
+	desc, e1 := c.change([]string{id}, h+dh, v+dv)
+	if e1 != nil {
+		return w.Err{V: w.Nil{}}
+	}
+	list := shuffleDup(desc, seed)
+	merged, e2 := c.merge(list, h, v)
+	return w.WithErr(w.L(strs(list), strs(merged)), e2)
+}
+
 func fnMergeDesc() *run.Fn {
-	return &run.Fn{Name: "MergeDescendants", Timeout: 5e9, Invoke: func(a []w.Val) w.Val {
-		id, dh, dv, seed := w.AsStr(a[0]), w.AsInt(a[1]), w.AsInt(a[2]), w.AsInt(a[3])
-		e, perr := object.NewExtendedSpatialID(id)
-		if perr != nil {
-			_, e1 := integrate.MergeExtendedSpatialIds([]string{id}, 0, 0)
-			return w.WithErr(w.L(w.List{}, w.List{}), e1)
+	return &run.Fn{Name: "MergeDescendants", Timeout: 5e9, Invoke: func(a []w.Val) w.Val { return newCaller(false).mergeDesc(a) }}
+}
+
+// act: a caller action inside a history whose results the caller throws away (nothing is judged): any direct call of the four functions,
+// typically one that fails half-way. ["call-change"|"call-merge", ids, H, V], ["call-points", stored triple, h, v], ["call-overlap", a, b].
+// Size guard: a zoom change that would produce more than 2^capBits IDs is not made.
+func (c *caller) act(name string, a []w.Val) {
+	switch name {
+	case "call-change", "call-merge":
+		if len(a) != 3 {
+			return
 		}
-		h, v := e.HZoom(), e.VZoom()
-		if !zoomOK(h) || !zoomOK(v) || dh < 0 || dh > 3 || dv < 0 || dv > 4 || h+dh > 35 || v+dv > 35 {
-			return w.S(skipMarker)
+		ids, H, V := w.AsStrs(a[0]), w.AsInt(a[1]), w.AsInt(a[2])
+		if len(ids) > 64 {
+			return
 		}
-		desc, e1 := integrate.ChangeExtendedSpatialIdsZoom([]string{id}, h+dh, v+dv)
-		if e1 != nil {
-			return w.Err{V: w.Nil{}}
+		if name == "call-merge" {
+			c.merge(ids, H, V)
+			return
 		}
-		list := shuffleDup(desc, seed)
-		merged, e2 := integrate.MergeExtendedSpatialIds(list, h, v)
-		return w.WithErr(w.L(strs(list), strs(merged)), e2)
+		for _, id := range ids {
+			if e, err := object.NewExtendedSpatialID(id); err == nil {
+				if zoomOK(H) && zoomOK(V) && (!zoomOK(e.HZoom()) || !zoomOK(e.VZoom()) || 2*pos64(H-e.HZoom())+pos64(V-e.VZoom()) > 6) {
+					return
+				}
+			}
+		}
+		c.change(ids, H, V)
+	case "call-points":
+		if len(a) != 3 {
+			return
+		}
+		p := c.pointOf(a[0])
+		c.lookup(p, w.AsInt(a[1]), w.AsInt(a[2]))
+		c.afterPoint(p)
+	case "call-overlap":
+		if len(a) != 2 {
+			return
+		}
+		detector.CheckExtendedSpatialIdsOverlap(w.AsStr(a[0]), w.AsStr(a[1]))
+	}
+}
+
+// CallHistory: [scribble?; steps]; step = [name; arguments]. name is one of the four entries above (the step's observation is judged
+// exactly as that entry's standalone case) or a caller action "call-*" (observation nil, not judged). All steps are made by ONE caller,
+// back to back, after a fixed priming sequence of unrelated calls — so that the case replays identically in a fresh process whatever
+// earlier cases left behind in the library.
+func fnHistory() *run.Fn {
+	return &run.Fn{Name: "CallHistory", Timeout: 2e10, Invoke: func(a []w.Val) w.Val {
+		c := newCaller(w.AsBool(a[0]))
+		prime := newCaller(false)
+		prime.change([]string{"2/1/1/2/1"}, 3, 1)
+		prime.merge([]string{"2/1/1/2/1", "2/1/1/2/0"}, 2, 1)
+		prime.lookup(RawPoint(10, 10, 10), 3, 3)
+		detector.CheckExtendedSpatialIdsOverlap("2/1/1/2/1", "1/0/0/1/0")
+		out := w.List{}
+		for _, st := range w.AsList(a[1]) {
+			l := w.AsList(st)
+			if len(l) != 2 {
+				out = append(out, w.Nil{})
+				continue
+			}
+			name, sa := w.AsStr(l[0]), []w.Val(w.AsList(l[1]))
+			switch name {
+			case "PointNesting":
+				out = append(out, guarded(func() w.Val { return c.nesting(sa) }))
+			case "PointLadder":
+				out = append(out, guarded(func() w.Val { return c.ladder(sa) }))
+			case "ZoomInOut":
+				out = append(out, guarded(func() w.Val { return c.inOut(sa) }))
+			case "MergeDescendants":
+				out = append(out, guarded(func() w.Val { return c.mergeDesc(sa) }))
+			default:
+				guarded(func() w.Val { c.act(name, sa); return w.Nil{} })
+				out = append(out, w.Nil{})
+			}
+		}
+		return out
 	}}
+}
+
+// guarded: a step whose arguments have the wrong shape (only a shrinker produces that) or that panics yields a Panic value for that step
+func guarded(f func() w.Val) (v w.Val) {
+	defer func() {
+		if e := recover(); e != nil {
+			v = w.Panic{Msg: fmt.Sprint(e)}
+		}
+	}()
+	return f()
 }
 
 // ---------------------------------------------------------------- generators
@@ -388,7 +572,7 @@ func idFor(g *Gen, h, v int64) (string, string) {
 		if g.Chance(0.25) { // the voxel of a point with a negative altitude (e.g. -75.5 m), through the real point function
 			alt := g.PickF(-75.5, -0.5, -101.5, -g.R.Float64()*1000, -g.R.Float64()*33554432)
 			if p, _, ok := StoredPoint(g.Lon(), g.Lat(), alt); ok {
-				if id, err := pointID(p, h, v); err == nil {
+				if id, err := newCaller(false).pointID(p, h, v); err == nil {
 					return id, "id-of-point-below-ground"
 				}
 			}
@@ -422,6 +606,216 @@ func respell(g *Gen, id, tag string) (string, string) {
 	return strings.Join(fs, "/"), tag + "+respelled"
 }
 
+// ---------------------------------------------------------------- call histories
+
+func step(name string, args ...w.Val) w.Val { return w.L(w.S(name), w.List(args)) }
+
+// plainPoint: a stored point well inside the domain (no denormal altitude: histories carry no finding class)
+func plainPoint(g *Gen) w.Val {
+	for {
+		alt := (g.R.Float64()*2 - 1) * 2000
+		if g.Chance(0.3) {
+			alt = g.PickF(-75.5, 101.5, -0.5, 0, -1, 12)
+		}
+		if _, pv, ok := StoredPoint(g.R.Float64()*360-180, g.R.Float64()*170-85, alt); ok {
+			return pv
+		}
+	}
+}
+
+// history: 3-7 steps made by one caller. Themes: the same key-like arguments (zooms, sizes) with different remaining arguments and the
+// reverse; invalid-then-valid and valid-then-invalid; the same failing call twice; identical calls repeated (also the trivial zoom change,
+// where the library is asked the very same question twice in a row); points through the same object with shared zoom pairs; a mix with
+// unjudged caller actions (direct calls that fail half-way). Returns [scribble?, steps].
+func history(g *Gen) ([]w.Val, []string) {
+	var steps w.List
+	tag := ""
+	smallZoom := func() (int64, int64) { return g.Zoom(), g.Zoom() }
+	idAt := func(h, v int64) string { id, _ := idFor(g, h, v); return id }
+	clamp := func(z int64) int64 {
+		if z > 35 {
+			return 35
+		}
+		return z
+	}
+	switch g.Intn(9) {
+	case 0: // merge: same zooms and same list length, different IDs
+		h, v := smallZoom()
+		dh, dv := g.Int63n(2), g.Int63n(3)
+		if h+dh > 35 {
+			dh = 0
+		}
+		if v+dv > 35 {
+			dv = 0
+		}
+		mode := g.Int63n(2)
+		for j := 3 + g.Intn(2); j > 0; j-- {
+			steps = append(steps, step("MergeDescendants", w.S(idAt(h, v)), w.I(dh), w.I(dv), w.I(4*g.Int63n(1000)+mode)))
+		}
+		tag = "hist-merge-same-zooms-other-ids"
+	case 1: // zoom in/out: same zooms, different IDs
+		h, v := smallZoom()
+		H, V := clamp(h+g.Int63n(3)), clamp(v+g.Int63n(4))
+		for j := 3 + g.Intn(2); j > 0; j-- {
+			steps = append(steps, step("ZoomInOut", w.S(idAt(h, v)), w.I(H), w.I(V)))
+		}
+		tag = "hist-inout-same-zooms-other-ids"
+	case 2: // zoom in/out: the same ID, targets that share one zoom
+		h, v := smallZoom()
+		id := idAt(h, v)
+		H1, H2, V1, V2 := clamp(h+g.Int63n(3)), clamp(h+g.Int63n(3)), clamp(v+g.Int63n(4)), clamp(v+g.Int63n(4))
+		for _, t := range [][2]int64{{H1, V1}, {H1, V2}, {H2, V2}, {H2, V1}, {H1, V1}} {
+			steps = append(steps, step("ZoomInOut", w.S(id), w.I(t[0]), w.I(t[1])))
+		}
+		steps = append(steps, step("MergeDescendants", w.S(id), w.I(pos64(H1-h)%3), w.I(pos64(V1-v)), w.I(g.Int63n(1000))))
+		tag = "hist-same-id-other-zooms"
+	case 3: // invalid, then valid with the same key-like arguments, then invalid again
+		h, v := smallZoom()
+		id := idAt(h, v)
+		H, V := clamp(h+g.Int63n(3)), clamp(v+g.Int63n(4))
+		badZ := g.Pick(-1, 36, 64)
+		steps = w.List{
+			step("ZoomInOut", w.S(id), w.I(badZ), w.I(V)), step("ZoomInOut", w.S(id), w.I(H), w.I(V)),
+			step("ZoomInOut", w.S(id), w.I(H), w.I(badZ)), step("ZoomInOut", w.S(id), w.I(H), w.I(V)),
+			step("MergeDescendants", w.S(g.Malformed()), w.I(1), w.I(1), w.I(3)), step("MergeDescendants", w.S(id), w.I(pos64(H-h)), w.I(pos64(V-v)), w.I(g.Int63n(1000))),
+		}
+		pv := plainPoint(g)
+		steps = append(steps, step("PointNesting", pv, w.I(H), w.I(V), w.I(badZ), w.I(v)), step("PointNesting", pv, w.I(H), w.I(V), w.I(h), w.I(v)))
+		tag = "hist-invalid-valid-invalid"
+	case 4: // the same failing call twice in a row, then the valid one
+		h, v := smallZoom()
+		id := idAt(h, v)
+		H, V := clamp(h+g.Int63n(3)), clamp(v+g.Int63n(4))
+		bad := g.Malformed()
+		switch g.Intn(3) {
+		case 0:
+			steps = w.List{step("ZoomInOut", w.S(id), w.I(36), w.I(V)), step("ZoomInOut", w.S(id), w.I(36), w.I(V)), step("ZoomInOut", w.S(id), w.I(H), w.I(V))}
+		case 1:
+			steps = w.List{step("ZoomInOut", w.S(bad), w.I(H), w.I(V)), step("ZoomInOut", w.S(bad), w.I(H), w.I(V)), step("ZoomInOut", w.S(id), w.I(H), w.I(V))}
+		default:
+			steps = w.List{step("MergeDescendants", w.S(bad), w.I(1), w.I(1), w.I(5)), step("MergeDescendants", w.S(bad), w.I(1), w.I(1), w.I(5)),
+				step("MergeDescendants", w.S(id), w.I(pos64(H-h)), w.I(pos64(V-v)), w.I(5))}
+		}
+		pv := plainPoint(g)
+		steps = append(steps, step("PointNesting", pv, w.I(-1), w.I(V), w.I(h), w.I(v)), step("PointNesting", pv, w.I(-1), w.I(V), w.I(h), w.I(v)))
+		tag = "hist-same-failure-twice"
+	case 5: // identical valid calls repeated; the trivial zoom change asks the library the same question twice in a row
+		h, v := smallZoom()
+		id := idAt(h, v)
+		H, V := clamp(h+g.Int63n(3)), clamp(v+g.Int63n(3))
+		sd := g.Int63n(1000)
+		steps = w.List{
+			step("ZoomInOut", w.S(id), w.I(h), w.I(v)), step("ZoomInOut", w.S(id), w.I(h), w.I(v)),
+			step("ZoomInOut", w.S(id), w.I(H), w.I(V)), step("ZoomInOut", w.S(id), w.I(H), w.I(V)),
+			step("MergeDescendants", w.S(id), w.I(0), w.I(0), w.I(sd)), step("MergeDescendants", w.S(id), w.I(0), w.I(0), w.I(sd)),
+			step("MergeDescendants", w.S(id), w.I(pos64(H-h)), w.I(pos64(V-v)), w.I(sd)), step("MergeDescendants", w.S(id), w.I(pos64(H-h)), w.I(pos64(V-v)), w.I(sd)),
+		}
+		tag = "hist-identical-repeated"
+	case 6: // points through the same object: consecutive lookups share their zoom pair but not the coordinates
+		h1, v1, h2, v2, _ := zoomPair(g)
+		if 2*pos64(h1-h2)+pos64(v1-v2) > capBits { // the swapped pair must stay under the size cap too
+			h2, v2 = h1, v1-pos64(v1-v2)%3
+			if v2 < 0 {
+				v2 = 0
+			}
+		}
+		for j := 0; j < 4; j++ {
+			if j%2 == 0 {
+				steps = append(steps, step("PointNesting", plainPoint(g), w.I(h1), w.I(v1), w.I(h2), w.I(v2)))
+			} else {
+				steps = append(steps, step("PointNesting", plainPoint(g), w.I(h2), w.I(v2), w.I(h1), w.I(v1)))
+			}
+		}
+		zs := w.L(w.L(w.I(h1), w.I(v1)), w.L(w.I(h2), w.I(v2)), w.L(w.I(h1), w.I(v1)))
+		pairs := w.L(w.L(w.I(0), w.I(1)), w.L(w.I(1), w.I(2)), w.L(w.I(0), w.I(2)))
+		steps = append(steps, step("PointLadder", plainPoint(g), zs, pairs), step("PointLadder", plainPoint(g), zs, pairs))
+		tag = "hist-points-same-object-shared-zooms"
+	case 7: // a direct call that fails half-way (valid prefix, then a malformed ID), thrown away, then judged steps with the same zooms
+		h, v := smallZoom()
+		dh, dv := g.Int63n(2), g.Int63n(3)
+		if h+dh > 35 {
+			dh = 0
+		}
+		if v+dv > 35 {
+			dv = 0
+		}
+		pre := w.L(w.S(idAt(h+dh, v+dv)), w.S(idAt(h+dh, v+dv)), w.S(g.Malformed()))
+		steps = w.List{
+			step("call-merge", pre, w.I(h), w.I(v)), step("MergeDescendants", w.S(idAt(h, v)), w.I(dh), w.I(dv), w.I(g.Int63n(1000))),
+			step("call-change", pre, w.I(h), w.I(v)), step("ZoomInOut", w.S(idAt(h, v)), w.I(h+dh), w.I(v+dv)),
+			step("call-merge", pre, w.I(36), w.I(v)), step("MergeDescendants", w.S(idAt(h, v)), w.I(dh), w.I(dv), w.I(g.Int63n(1000))),
+			step("call-overlap", w.S(idAt(h, v)), w.S(g.Malformed())), step("call-points", plainPoint(g), w.I(-1), w.I(v)),
+			step("PointNesting", plainPoint(g), w.I(h+dh), w.I(v+dv), w.I(h), w.I(v)),
+		}
+		tag = "hist-failed-direct-calls-between"
+	default: // a mix
+		for j := 3 + g.Intn(4); j > 0; j-- {
+			h, v := smallZoom()
+			switch g.Intn(4) {
+			case 0:
+				steps = append(steps, step("ZoomInOut", w.S(idAt(h, v)), w.I(clamp(h+g.Int63n(3))), w.I(clamp(v+g.Int63n(4)))))
+			case 1:
+				dh, dv := g.Int63n(2), g.Int63n(3)
+				if h+dh > 35 {
+					dh = 0
+				}
+				if v+dv > 35 {
+					dv = 0
+				}
+				steps = append(steps, step("MergeDescendants", w.S(idAt(h, v)), w.I(dh), w.I(dv), w.I(g.Int63n(1000))))
+			case 2:
+				h1, v1, h2, v2, _ := zoomPair(g)
+				steps = append(steps, step("PointNesting", plainPoint(g), w.I(h1), w.I(v1), w.I(h2), w.I(v2)))
+			default:
+				steps = append(steps, step("call-change", w.L(w.S(idAt(h, v)), w.S(g.Malformed())), w.I(h), w.I(v)))
+				steps = append(steps, step("ZoomInOut", w.S(idAt(h, v)), w.I(h), w.I(v)))
+			}
+		}
+		tag = "hist-mix"
+	}
+	scribble := g.Chance(0.5)
+	mode := "hist-polite-caller"
+	if scribble {
+		mode = "hist-scribbling-caller"
+	}
+	return []w.Val{w.B(scribble), steps}, []string{"call-history", tag, mode, Tag("hist-len=%d", len(steps))}
+}
+
+// regressions: fixed histories run first on every run (whatever the seed), one per kind of library state that a history can expose
+func regressions(r *run.Runner) {
+	run1 := func(tag string, scribble bool, steps ...w.Val) {
+		r.Run(run.Case{Prop: "C09", Fn: "CallHistory", Tags: []string{"regression", tag}, Args: []w.Val{w.B(scribble), w.List(steps)}})
+	}
+	tokyo := w.L(w.F(139.753098), w.F(35.685371), w.F(101.5))
+	osaka := w.L(w.F(135.5), w.F(34.7), w.F(-75.5))
+	// same zooms and list length, different IDs (merge), then the same through the trivial change
+	run1("regression-merge-same-zooms", false,
+		step("MergeDescendants", w.S("20/931348/412858/20/-1"), w.I(1), w.I(1), w.I(0)),
+		step("MergeDescendants", w.S("20/931349/412858/20/5"), w.I(1), w.I(1), w.I(0)),
+		step("MergeDescendants", w.S("20/11/12/20/-3"), w.I(1), w.I(1), w.I(4)))
+	// the same failing call twice, then valid; invalid zoom between two valid calls
+	run1("regression-failure-twice", false,
+		step("ZoomInOut", w.S("3/1/1/3/-8"), w.I(36), w.I(6)), step("ZoomInOut", w.S("3/1/1/3/-8"), w.I(36), w.I(6)),
+		step("ZoomInOut", w.S("3/1/1/3/-8"), w.I(5), w.I(6)), step("ZoomInOut", w.S("3/1/1/3/-8"), w.I(5), w.I(-1)),
+		step("ZoomInOut", w.S("3/1/1/3/-8"), w.I(5), w.I(6)), step("ZoomInOut", w.S("3/1/b/3/-8"), w.I(5), w.I(6)), step("ZoomInOut", w.S("3/1/b/3/-8"), w.I(5), w.I(6)))
+	// identical questions in a row, the caller scribbling over what it was given back
+	run1("regression-identical-scribbled", true,
+		step("ZoomInOut", w.S("4/14/6/25/101"), w.I(4), w.I(25)), step("ZoomInOut", w.S("4/14/6/25/101"), w.I(4), w.I(25)),
+		step("PointNesting", tokyo, w.I(5), w.I(25), w.I(4), w.I(24)), step("PointNesting", tokyo, w.I(5), w.I(25), w.I(4), w.I(24)),
+		step("MergeDescendants", w.S("4/14/6/25/101"), w.I(0), w.I(0), w.I(1)), step("MergeDescendants", w.S("4/14/6/25/101"), w.I(0), w.I(0), w.I(1)))
+	// one point object moved between lookups that share their zoom pair
+	run1("regression-moved-point", true,
+		step("PointNesting", tokyo, w.I(20), w.I(20), w.I(18), w.I(21)), step("PointNesting", osaka, w.I(18), w.I(21), w.I(20), w.I(20)),
+		step("PointNesting", tokyo, w.I(20), w.I(20), w.I(18), w.I(21)),
+		step("PointLadder", osaka, w.L(w.L(w.I(18), w.I(21)), w.L(w.I(20), w.I(20))), w.L(w.L(w.I(0), w.I(1)))))
+	// a merge that fails after a valid prefix, thrown away, then a merge at the same zooms
+	run1("regression-failed-merge-between", false,
+		step("call-merge", w.L(w.S("21/1862696/825716/21/-2"), w.S("21/1862697/825716/21/-2"), w.S("21/x/0/21/0")), w.I(20), w.I(20)),
+		step("MergeDescendants", w.S("20/931348/412858/20/-1"), w.I(1), w.I(1), w.I(2)),
+		step("call-change", w.L(w.S("20/931348/412858/20/-1"), w.S("bad")), w.I(21), w.I(21)),
+		step("ZoomInOut", w.S("20/931348/412858/20/-1"), w.I(21), w.I(21)))
+}
+
 func zoomTags(kind string, h1, v1, h2, v2 int64) []string {
 	return []string{kind, Tag("hzoom=%d", h1), Tag("vzoom=%d", v1), Tag("hzoom2=%d", h2), Tag("vzoom2=%d", v2)}
 }
@@ -430,7 +824,10 @@ func init() {
 	Scale["C09"] = 8000
 	Registry["C09"] = func(r *run.Runner, g *Gen, n int) {
 		MathOracles(r)
-		r.Register(fnNesting(), fnLadder(), fnInOut(), fnMergeDesc())
+		r.Register(fnNesting(), fnLadder(), fnInOut(), fnMergeDesc(), fnHistory())
+		if n > 0 {
+			regressions(r)
+		}
 		nesting := func(pv w.Val, h1, v1, h2, v2 int64, tags ...string) {
 			r.Run(run.Case{Prop: "C09", Fn: "PointNesting", Tags: tags, Trivial: h1 == h2 && v1 == v2,
 				Args: []w.Val{pv, w.I(h1), w.I(v1), w.I(h2), w.I(v2)}})
@@ -490,6 +887,10 @@ func init() {
 					mergeDesc(g.Malformed(), g.Int63n(3), g.Int63n(4), g.Int63n(1000), "malformed-id")
 				}
 				i++
+			case kind < 105 && i+5 <= n: // a history of related calls made by one caller (counted as one case per judged step, about 5)
+				args, tags := history(g)
+				r.Run(run.Case{Prop: "C09", Fn: "CallHistory", Tags: tags, Args: args})
+				i += 5
 			case kind < 400: // one point at two zoom pairs
 				h1, v1, h2, v2, zk := zoomPair(g)
 				pv, tags := storedPoint(g, h1, v1)
